@@ -126,3 +126,152 @@ func HC06LimitFlip() {
 	SetLimit(old)
 	vReach("end")
 }
+
+func c06Accept([]byte, uint32) bool { return true }
+
+// c06GateReader: natively its first Read waits until the gate is closed (so that the concurrent
+// SetLimit lands while the detection is in flight); symbolically it is a plain reader and the
+// explorer chooses the interleaving.
+type c06GateReader struct {
+	data []byte
+	pos  int
+	gate chan struct{}
+}
+
+func (r *c06GateReader) Read(p []byte) (int, error) {
+	if r.gate != nil {
+		<-r.gate
+		r.gate = nil
+	}
+	if r.pos >= len(r.data) {
+		return 0, vioEOF()
+	}
+	n := copy(p, r.data[r.pos:])
+	r.pos += n
+	return n, nil
+}
+
+func c06Chain(m *MIME) string {
+	s := ""
+	for p := m; p != nil; p = p.Parent() {
+		s += p.String() + "|" + p.Extension() + ">"
+	}
+	return s
+}
+
+// HC06Interleave: two operations run as two threads whose interleaving at synchronisation
+// operations (atomic loads/stores, lock and unlock, pool get/put) is chosen by the explorer, every
+// schedule with at most two preemptions. Afterwards (and for the values the operations returned)
+// the outcome must be one a sequential execution allows: registrations are not lost and become
+// visible to Lookup, a detection sees the old or the new limit / tree, a looked-up or returned
+// value is never half-built. Natively (replay) the pair runs in goroutines for many rounds.
+func HC06Interleave() {
+	sc := vChoice("scenario", 7)
+	rounds := 1
+	if !vSymbolic() {
+		rounds = 400
+	}
+	json1 := []byte(`{"a":[1,2],"b":"x"}` + "\n" + `{"c":1}` + "\n")
+	csv1 := []byte("a,b\n1,2\n3,4\n5,6\n")
+	for round := 0; round < rounds; round++ {
+		sfx := l1Itoa(round)
+		switch sc {
+		case 0: // Extend || Lookup of something else: the new name and alias resolve afterwards
+			name, alias := "application/x-verif-il0-"+sfx, "application/x-verif-il0-alias-"+sfx
+			vPar(2, func() { Extend(c06Reject, name, ".il0", alias) }, func() {
+				n := 1
+				if !vSymbolic() {
+					n = 50
+				}
+				for k := 0; k < n; k++ {
+					_ = Lookup("text/plain")
+				}
+			})
+			l := Lookup(name)
+			vAssert(l != nil, "registration-visible-to-lookup-after-concurrent-lookup")
+			if l != nil {
+				vAssert(l.String() == name && l.Extension() == ".il0" && l.Parent() == root, "looked-up-extension-fully-built")
+			}
+			vAssert(Lookup(alias) == l, "alias-visible-to-lookup-after-concurrent-lookup")
+		case 1: // Extend || Extend on the same parent: no registration is lost, older siblings stay behind
+			before := append([]*MIME(nil), text.children...)
+			a, b := "text/x-verif-il1a-"+sfx, "text/x-verif-il1b-"+sfx
+			vPar(2, func() { text.Extend(c06Reject, a, ".a") }, func() { text.Extend(c06Reject, b, ".b") })
+			now := text.children
+			vAssert(len(now) == len(before)+2, "no-lost-registration")
+			if len(now) == len(before)+2 {
+				ok := (now[0].mime == a && now[1].mime == b) || (now[0].mime == b && now[1].mime == a)
+				vAssert(ok, "both-extensions-in-front")
+				for k := range before {
+					vAssert(now[k+2] == before[k], "older-siblings-unchanged")
+				}
+			}
+			vAssert(Lookup(a) != nil && Lookup(b) != nil, "both-registrations-visible")
+		case 2, 3: // SetLimit || DetectReader: the result is the sequential one for the old or the new limit
+			in := json1
+			if sc == 3 {
+				in = csv1
+			}
+			lims := [][2]uint32{{5, 3072}, {3072, 9}, {9, 0}, {0, 5}, {13, 14}}
+			lp := lims[vChoice("limits", len(lims))]
+			old := readLimit
+			SetLimit(lp[0])
+			want1 := c06Chain(Detect(in))
+			SetLimit(lp[1])
+			want2 := c06Chain(Detect(in))
+			SetLimit(lp[0])
+			rd := &c06GateReader{data: in}
+			var gate chan struct{}
+			if !vSymbolic() {
+				gate = make(chan struct{})
+				rd.gate = gate
+			}
+			var got string
+			vPar(2, func() {
+				SetLimit(lp[1])
+				if gate != nil {
+					close(gate)
+				}
+			}, func() {
+				r, err := DetectReader(rd)
+				if err == nil && r != nil {
+					got = c06Chain(r)
+				}
+			})
+			SetLimit(old)
+			vAssert(got == want1 || got == want2, "detection-is-sequential-for-old-or-new-limit")
+			if !vSymbolic() {
+				rounds = 1
+			}
+		case 4: // Extend (accepting everything, root level) || Detect: old classification or the extension, fully built
+			in := json1
+			name := "application/x-verif-il4-" + sfx
+			before := c06Chain(Detect(in))
+			var got *MIME
+			vPar(2, func() { Extend(c06Accept, name, ".il4") }, func() { got = Detect(in) })
+			g := c06Chain(got)
+			vAssert(g == before || g == name+"|.il4>application/octet-stream|>", "detection-sees-old-or-new-tree")
+			after := c06Chain(Detect(in))
+			vAssert(after == name+"|.il4>application/octet-stream|>", "extension-in-force-after-both-returned")
+			// neutralise the catch-all for the following rounds / scenarios
+			root.children[0].detector = c06Reject
+		case 5: // Extend || Lookup of the name being registered: nil or the fully built node
+			name := "application/x-verif-il5-" + sfx
+			var l *MIME
+			vPar(2, func() { text.Extend(c06Reject, name, ".il5", name+"-alias") }, func() { l = Lookup(name) })
+			if l != nil {
+				vAssert(l.String() == name && l.Extension() == ".il5" && l.Parent() == text && l.Is(name+"-alias"), "looked-up-value-never-half-built")
+			}
+			vAssert(Lookup(name) != nil && Lookup(name+"-alias") == Lookup(name), "registration-visible-afterwards")
+		case 6: // Detect || DetectReader on different inputs (shared pools): each result is the sequential one
+			wantA, wantB := c06Chain(Detect(json1)), c06Chain(Detect(csv1))
+			var ga, gb string
+			vPar(2, func() { ga = c06Chain(Detect(json1)) }, func() {
+				r, _ := DetectReader(vbytes.NewReader(csv1))
+				gb = c06Chain(r)
+			})
+			vAssert(ga == wantA && gb == wantB, "concurrent-detections-are-sequential")
+		}
+	}
+	vReach("end")
+}
